@@ -386,6 +386,7 @@ def aggregate(agg, scn, res):
 
 def merge(a, b):
     a["timeouts"] = a.get("timeouts", 0) + b.get("timeouts", 0)
+    a["setup_errors"] = a.get("setup_errors", 0) + b.get("setup_errors", 0)
     for key in ("runs", "steps", "solver_calls", "natural_info_nonzero", "iterative_calls", "direct_calls", "fault_runs", "violating_runs"):
         a[key] += b[key]
     a["sim_time"] += b["sim_time"]
@@ -512,6 +513,7 @@ def evidence(out, tier, seed, wall, wall_batch, cross, known_hits, violations, w
             "known_finding_runs": known_hits,
             "violating_runs": agg["violating_runs"],
             "scenarios_timed_out_inconclusive": agg.get("timeouts", 0),
+            "scenarios_not_set_up_inconclusive": agg.get("setup_errors", 0),
             "warnings": warn,
             "real_vs_stub": {
                 "real": "all of bluebonnet; scipy interp1d, sparse.diags; the linear solver in pass-through runs (wrapped, recorded)",
